@@ -35,9 +35,9 @@ import (
 )
 
 type c13 struct {
-	c    *vk.Ctx
-	l    map[int]*ebpf.Layout // 4, 6
-	used map[string]bool      // probe symbols consumed by some comparison
+	c     *vk.Ctx
+	l     map[int]*ebpf.Layout // 4, 6
+	used  map[string]bool      // probe symbols consumed by some comparison
 	stray []string
 }
 
@@ -178,6 +178,10 @@ func TestVerif_C13(t *testing.T) {
 		}
 		v4, v6, err := loadLayouts(dir)
 		if err != nil {
+			c.ToolError(err.Error())
+			return
+		}
+		if err := ebpf.SelfTestELF(dir + "/selftest.o"); err != nil {
 			c.ToolError(err.Error())
 			return
 		}
@@ -640,6 +644,8 @@ func (k *c13) cleanupQueue(ver int) {
 func (k *c13) cleanerResult() {
 	t := reflect.TypeOf(conntrack.CleanupContext{})
 	for _, ver := range []int{4, 6} {
+		// sizes the C14 harness needs to bind the connection-limit map; no Go counterpart in the anchors
+		_, _ = k.sizeof(ver, "qos_key"), k.sizeof(ver, "qos_conn_val")
 		k.cmp(ver, "conntrack.CleanupContext", "sizeof", int(t.Size()), k.sizeof(ver, "ct_iter_ctx"), "")
 		for _, e := range [][2]string{{"StartTime", "now"}, {"EndTime", "end_time"}, {"NumKVsCleaned", "num_cleaned"}} {
 			f, ok := t.FieldByName(e[0])
